@@ -444,7 +444,8 @@ func (fr *Frame) makeSlice(st *State, i *ssa.MakeSlice) Value {
 	}
 	s := fr.v.scalarSort(elem)
 	if s == nil {
-		if _, nested := elem.Underlying().(*types.Slice); nested {
+		_, isPtrElem := elem.Underlying().(*types.Pointer)
+		if _, nested := elem.Underlying().(*types.Slice); nested || isPtrElem {
 			// a slice of slices of symbolic length: the header is exact, the contents are not modelled (every load
 			// yields an arbitrary value of the element type: an over-approximation of the nil slices it holds)
 			o.Unmodelled = true
